@@ -5,6 +5,7 @@
 package packet
 
 import (
+	"bytes"
 	"crypto/cipher"
 	"crypto/sha1"
 	"crypto/subtle"
@@ -53,14 +54,21 @@ func (se *SymmetricallyEncrypted) Decrypt(c CipherFunction, key []byte) (io.Read
 		return nil, errors.InvalidArgumentError("SymmetricallyEncrypted: incorrect key length")
 	}
 
-	if se.prefix == nil {
-		se.prefix = make([]byte, c.blockSize()+2)
-		_, err := readFull(se.contents, se.prefix)
+	// The prefix is read once and kept, so that Decrypt can be called again
+	// with another key. A previous attempt may have been made with a cipher
+	// of a different block size (e.g. after a wrong passphrase): read the
+	// missing octets, or hand the surplus back to the contents.
+	prefixLen := c.blockSize() + 2
+	if len(se.prefix) < prefixLen {
+		more := make([]byte, prefixLen-len(se.prefix))
+		_, err := readFull(se.contents, more)
 		if err != nil {
 			return nil, err
 		}
-	} else if len(se.prefix) != c.blockSize()+2 {
-		return nil, errors.InvalidArgumentError("can't try ciphers with different block lengths")
+		se.prefix = append(se.prefix, more...)
+	} else if len(se.prefix) > prefixLen {
+		se.contents = io.MultiReader(bytes.NewReader(se.prefix[prefixLen:]), se.contents)
+		se.prefix = se.prefix[:prefixLen:prefixLen]
 	}
 
 	ocfbResync := OCFBResync
